@@ -423,10 +423,13 @@ class Interp(object):
         if isinstance(e, ast.JoinedStr):
             return Sym(src(e))
         if isinstance(e, ast.Dict):
+            vals = []
             for k, v in zip(e.keys, e.values):
                 if k is not None:
                     self.eval(k, env)
-                self.eval(v, env)
+                vals.append(self.eval(v, env))
+            if getattr(self, 'eval_dicts', False) and all(isinstance(k, ast.Constant) and isinstance(k.value, str) for k in e.keys):
+                return dict((k.value, v) for k, v in zip(e.keys, vals))     # a record with constant field names keeps its field values
             return Sym(src(e))
         if isinstance(e, ast.Lambda):
             return Sym(src(e))
